@@ -56,9 +56,14 @@ def _candidates(block):
     return [(s, n_stats(s, block)) for s in c]
 
 
-def tree_for(N, rng, block, need_dim=0):
-    """a list of leaf shapes whose statistics count is exactly N (0 allowed: only skipped leaves)."""
+def tree_for(N, rng, block, need_dim=0, big=False):
+    """a list of leaf shapes whose statistics count is exactly N (0 allowed: only skipped leaves).
+    big: every dimension in 4..7 (used with block 8), so that every statistic is larger than |compression_rank| + 2 and
+    takes the low-rank / frequent-directions path — the only consumer of the previous preconditioner."""
     cands = _candidates(block)
+    if big:
+        cands = [(s, k) for s, k in cands if min(s) >= 4 and (len(s) < 2 or max(s) <= 6)]
+        cands += [([4, 4, 4], n_stats([4, 4, 4], block))]
     leaves, rem = [], N
     while rem > 0:
         ok = [(s, k) for s, k in cands if k <= rem and (rem > 6 or k <= 3 or k == rem)]
@@ -75,6 +80,23 @@ def tree_for(N, rng, block, need_dim=0):
     return leaves
 
 
+LOWRANK_KINDS = ("comp", "comp_reuse", "comp_neg", "fd", "quant_comp")
+FAULT_KINDS = ["full", "eigh", "reuse", "comp", "full", "eigh"]     # float paths (int16 of a NaN is not defined)
+
+
+def well_posed_tree(N, rng):
+    """matrices a x b with 4 <= a, b <= 6 and |a - b| <= 1 (block 8) — every statistic is a full-rank, generically
+    non-degenerate Gram matrix larger than rank + 2 from the first step on — plus one vector when N is odd and a scalar."""
+    leaves = []
+    for _ in range(N // 2):
+        a = rng.choice([4, 5, 6])
+        leaves.append([a, max(4, min(6, a + rng.choice([-1, 0, 0, 1])))])
+    if N % 2:
+        leaves.append([rng.choice([4, 5])])
+    leaves.insert(rng.randrange(len(leaves) + 1), [])
+    return leaves
+
+
 def make_cfg(kind, rng):
     cfg = {"kind": kind, "block": rng.choice([4, 4, 6]), "beta2": rng.choice([1.0, 0.999]),
            "eps": rng.choice([1e-3, 1e-3, 1e-3, 1e-2, 1e-2, 1e-6]), "start": rng.choice([1, 1, 2]), "pi": rng.choice([1, 1, 2]),
@@ -84,6 +106,8 @@ def make_cfg(kind, rng):
         cfg["rank"] = 1
     if kind == "comp_neg":
         cfg["rank"] = -1
+    if kind in LOWRANK_KINDS and rng.random() < 0.75:
+        cfg["block"] = 8
     if kind == "fd":
         cfg.update(rank=1, reuse=True, fd=True, pi=1)      # frequent_directions requires equal statistics / preconditioner intervals
     if kind in ("comp_reuse", "reuse", "quant_reuse"):
@@ -96,9 +120,9 @@ def _need_dim(cfg):
 
 
 def _mk(kind_of_task, N, cfg, rng, gid, seed, T, **kw):
-    shapes = tree_for(N, rng, cfg["block"], _need_dim(cfg))
+    shapes = kw.pop("shapes", None) or tree_for(N, rng, cfg["block"], _need_dim(cfg), big=(cfg["block"] == 8))
     t = {"kind": kind_of_task, "N": N, "shapes": shapes, "cfg": cfg, "T": T, "gseed": seed * 100003 + gid}
-    t.update(kw)
+    t.update({k: v for k, v in kw.items() if v is not None})
     return t
 
 
@@ -127,6 +151,41 @@ def gen_tasks(tier, seed):
                 gid += 1
                 tasks.append(_mk("pmap", N, make_cfg(kinds[(N * 3 + j) % len(kinds)], rng), rng, gid, seed, T,
                                  Ds=list(range(2, 9))))
+    # ---------------- previous-preconditioner consumers: frequent directions (prev IS the sketch) and warm-started reuse;
+    # every statistic on the low-rank path, >= 3 preconditioner computations, N >= 2 D, against the one-device run
+    def dedicated(kind, N, Ds, task="pmap", **kw):
+        nonlocal gid
+        gid += 1
+        cfg = make_cfg(kind, rng)
+        cfg.update(block=8, eps=1e-3, beta2=0.999, start=1, pi=1)
+        return _mk(task, N, cfg, rng, gid, seed, 4, shapes=well_posed_tree(N, rng), Ds=Ds, **kw)
+    if quick:
+        tasks.append(dedicated("fd", 10 + seed % 3, Ds=[2, 3, 5]))
+        tasks.append(dedicated("reuse", 8 + seed % 4, Ds=[2, 4]))
+        tasks.append(dedicated("comp_reuse", 9, Ds=[3]))
+    else:
+        for kind in ("fd", "reuse", "comp_reuse", "quant_reuse"):
+            for N in (6, 9, 12, 16):
+                tasks.append(dedicated(kind, N, Ds=[D for D in range(2, 9) if N >= 2 * D]))
+    # ---------------- fault histories: one NaN / Inf entry in one parameter's gradient at one step, everything else healthy
+    def faulty(task, N, kind, **kw):
+        nonlocal gid
+        gid += 1
+        cfg = make_cfg(kind, rng)
+        cfg.update(pi=1, start=1)
+        t = _mk(task, N, cfg, rng, gid, seed, 4, **kw)
+        owners = [i for i, s_ in enumerate(t["shapes"]) if len(s_) > 0]
+        t["fault"] = {"step": rng.choice([0, 1, 1, 2]), "param": rng.choice(owners), "entry": rng.randrange(64),
+                      "value": rng.choice(["nan", "nan", "inf", "-inf"])}
+        return t
+    fk = list(FAULT_KINDS)
+    rng.shuffle(fk)
+    for i in range(2 if quick else 12):
+        tasks.append(faulty("pmap", rng.randint(3, 12), fk[i % len(fk)], Ds=[2, 3, 6] if quick else list(range(2, 9))))
+    for i in range(1 if quick else 6):
+        tasks.append(faulty("sharded", rng.randint(3, 12), fk[(i + 2) % len(fk)],
+                            runs=[(2, 1), (3, 3), (6, 2)] if quick else [(2, 1), (2, 2), (3, 3), (6, 2), (4, 4), (8, 8), (5, 1)]))
+    tasks.append(dedicated("fd", 8, Ds=None, task="sharded", runs=[(2, 2), (4, 1), (3, 3)]))
     # ---------------- executed sharded runs: (num_devices_for_pjit, mesh size)
     all_runs = [(2, 1), (3, 1), (4, 1), (5, 1), (6, 1), (7, 1), (8, 1), (2, 2), (3, 3), (4, 4), (8, 8), (6, 3), (8, 4),
                 (4, 2), (5, 5), (7, 7), (6, 6), (6, 2), (16, 8), (12, 4)]
@@ -163,11 +222,15 @@ def gen_tasks(tier, seed):
 
 
 # ============================================================================ worker helpers (real code)
-def _grads(shapes, names, T, gseed):
+def _grads(shapes, names, T, gseed, fault=None):
     import numpy as np
     import jax.numpy as jnp
     rs = np.random.RandomState(gseed % (2 ** 31))
-    return [{n: jnp.asarray(np.asarray(rs.randn(*s), np.float32)) for n, s in zip(names, shapes)} for _ in range(T)]
+    out = [{n: np.asarray(rs.randn(*s), np.float32) for n, s in zip(names, shapes)} for _ in range(T)]
+    if fault:
+        g = out[min(fault["step"], T - 1)][names[fault["param"]]]
+        g.reshape(-1)[fault["entry"] % g.size] = {"nan": np.nan, "inf": np.inf, "-inf": -np.inf}[fault["value"]]
+    return [{n: jnp.asarray(v) for n, v in st.items()} for st in out]
 
 
 def _build(cfg, mode, npjit=None):
@@ -331,7 +394,7 @@ def _flips(ref, cand):
     for (p, a), (_q, b) in zip(ref, cand):
         c = _cat(p)
         if c in ("metrics.inverse_pth_root_iters", "metrics.total_retries") and a.shape == b.shape:
-            if not np.array_equal(a, b):
+            if not np.array_equal(a, b, equal_nan=True):
                 out.setdefault(_param_of(p) or "?", [c, np.asarray(a).reshape(-1).tolist(), np.asarray(b).reshape(-1).tolist()])
     return out
 
@@ -492,8 +555,10 @@ def _run_pmap_task(task):
     cfg, shapes = task["cfg"], task["shapes"]
     names = [f"p{i:02d}" for i in range(len(shapes))]
     params = {n: jnp.full(tuple(s), 0.5, jnp.float32) for n, s in zip(names, shapes)}
-    grads = _grads(shapes, names, task["T"], task["gseed"])
+    grads = _grads(shapes, names, task["T"], task["gseed"], task.get("fault"))
     case0 = {k: task[k] for k in ("kind", "N", "shapes", "cfg", "T", "gseed")}
+    if task.get("fault"):
+        case0["fault"] = task["fault"]
     out = {"kind": "pmap", "case": case0, "runs": []}
     thr = 0.1
     try:
@@ -602,8 +667,10 @@ def _run_sharded_task(task):
         shapes = []
     names = [f"p{i:02d}" for i in range(len(shapes))]
     params = {n: jnp.full(tuple(s), 0.5, jnp.float32) for n, s in zip(names, shapes)}
-    grads = _grads(shapes, names, task["T"], task["gseed"])
+    grads = _grads(shapes, names, task["T"], task["gseed"], task.get("fault"))
     case0 = {k: task[k] for k in ("kind", "N", "shapes", "cfg", "T", "gseed")}
+    if task.get("fault"):
+        case0["fault"] = task["fault"]
     case0["shapes"] = shapes
     case0["empty_tree"] = bool(task.get("empty_tree"))
     N = task["N"]
@@ -1151,13 +1218,13 @@ def replay(ctx, data):
         if k == "unit":
             unit.append({"n": c["n"], "D": c["D"], "elem": c["elem"]})
         elif k == "pmap":
-            t = {x: c[x] for x in ("kind", "N", "shapes", "cfg", "T", "gseed")}
+            t = {x: c[x] for x in ("kind", "N", "shapes", "cfg", "T", "gseed", "fault") if x in c}
             t["Ds"] = [c["D"]] if c.get("D") else [2]
             if c.get("D") == 0:
                 t["Ds"] = []
             tasks.append(t)
         elif k == "sharded":
-            t = {x: c[x] for x in ("kind", "N", "shapes", "cfg", "T", "gseed")}
+            t = {x: c[x] for x in ("kind", "N", "shapes", "cfg", "T", "gseed", "fault") if x in c}
             t["empty_tree"] = c.get("empty_tree", False)
             t["runs"] = [(c.get("npjit", 2), c.get("mesh", 1))]
             tasks.append(t)
